@@ -267,10 +267,14 @@ class World(object):
             from spyne import Application
             from spyne.server import ServerBase
             from spyne.server.wsgi import WsgiApplication
+            opts = dict(opts)
+            out = opts.pop('out', None)
             inp, outp = self._protocols(proto, validator, opts)
+            if out is not None:
+                outp = self._protocols(out, None, {})[1]
             app = Application([self.service], TNS, name='C10App', in_protocol=inp, out_protocol=outp)
             s = {'app': app, 'base': ServerBase(app) if proto != 'http' else None, 'wsgi': WsgiApplication(app),
-                 'proto': proto, 'validator': validator, 'opts': dict(opts)}
+                 'proto': proto, 'validator': validator, 'opts': dict(opts, **({'out': out} if out else {})), 'outproto': out or proto}
             self.servers[key] = s
             if not self.member_ready:
                 # the element name / namespace of array items is settled when the interface is built
@@ -467,7 +471,7 @@ def run_base(W, s, data):
         r.kind = 'ok'
     else:
         r.kind, r.code = 'fault', str(getattr(err, 'faultcode', ''))
-        r.wire = wire_code(s['proto'], r.out)
+        r.wire = wire_code(s.get('outproto') or s['proto'], r.out)
     return r
 
 
@@ -526,7 +530,7 @@ def run_wsgi(W, s, env):
         r.kind = 'ok'
     else:
         r.kind = 'fault'
-        r.wire = wire_code(s['proto'], r.out)
+        r.wire = wire_code(s.get('outproto') or s['proto'], r.out)
         r.code = r.wire if isinstance(r.wire, str) and r.wire not in ('unparseable', '#unparsable') else None
     return r
 
@@ -620,7 +624,7 @@ class Judge(object):
                                   'the response to a malformed %s request is not a well-formed Client fault document of the output protocol '
                                   '(code read back: %r)' % (proto, wire), dict(rp, response=(r.out or b'')[:600].decode('utf-8', 'replace')))
                     ok = False
-            if transport == 'wsgi' and client and fam != 'soap' and not (400 <= (r.status or 0) < 500):
+            if transport == 'wsgi' and client and family(s.get('outproto') or proto) != 'soap' and not (400 <= (r.status or 0) < 500):
                 self._finding('c10:status:%s:%s' % (fam, r.status), 'a Client fault over HTTP (%s) is sent with status %s' % (proto, r.status),
                               dict(rp, observed={'fault': code, 'status': r.status}))
                 ok = False
@@ -1000,6 +1004,7 @@ def measure_facts(W):
     f['envTable'] = measure_env_table(W)
     f['hrefTable'] = measure_href_table(W)
     f['urlTable'], f['urlDetail'] = measure_url_table(W)
+    f['faultDocTable'], f['faultDocDetail'] = measure_fault_doc_table(W)
     return f
 
 
@@ -1090,6 +1095,8 @@ def facts10 : Facts10 where
     %s]
   urlTable := [
     %s]
+  faultDocTable := [
+    %s]
 
 end SpyneModel.Generated
 ''' % (per_proto(f['parseChain'], _lean_chain), per_proto(f['decodeChain'], _lean_chain), single(f['genContexts']),
@@ -1098,7 +1105,7 @@ end SpyneModel.Generated
        per_proto(f['raisableText'], lambda l: _lean_list(_lean_exc(e) for e in l)),
        _lean_list(_lean_exc(e) for e in f['raisableDecode']),
        per_proto(f['textInput'], lambda b: 'true' if b else 'false'), tab(f['statusPlain']), tab(f['statusSoap']), f['okStatus'], table, env_rows_lean(f['envTable']), env_rows_lean(f['hrefTable']),
-       pre_rows_lean(f['urlTable']))
+       pre_rows_lean(f['urlTable']), pre_rows_lean(f['faultDocTable']))
 
 
 # ====================================================================================== stage-level observations (T2)
@@ -1744,7 +1751,8 @@ def run(ctx):
     n2 = part_transport(ctx, W, J, t2, f)
     n3 = part_bytes(ctx, W, J, t2, f)
     n4 = part_envelope(ctx, W, J, t2)
-    n5 = part_multiref(ctx, W, J, t2) + part_http_flat(ctx, W, J, t2) + part_environ(ctx, W, J, t2, f) + part_configs(ctx, W, J, t2)
+    n5 = part_multiref(ctx, W, J, t2) + part_http_flat(ctx, W, J, t2) + part_environ(ctx, W, J, t2, f) + part_configs(ctx, W, J, t2) + \
+        part_cross_out(ctx, W, J, t2)
     ctx.log('parts (b) transport, (c) bytes, (d) envelopes, (e) multiref / flat / environ / configs: %d + %d + %d + %d requests' % (n2, n3, n4, n5))
     deep_nesting_probe(ctx)
     nd = t2.run()
@@ -1778,6 +1786,12 @@ def run(ctx):
 # ====================================================================================== replay
 def replay(ctx, obj):
     kind = obj.get('kind', '')
+    if kind == 'faultdoc':
+        W = World(leaf_universe())
+        key = tuple(obj['key'])
+        o = _fault_doc_row(W, key)
+        print('fault text %r, output protocol %s, %s: %s' % (FAULT_TEXTS[key[2]], key[0], 'WsgiApplication' if key[1] else 'ServerBase', o))
+        return 1 if o[0][0] != 'proceed' else 0
     if kind in ('leaf', 'leaf-native', 'transport', 'charset', 'input', 'qs', 'path', 'bytes', 'deep', 'envelope', 'flat', 'url', 'headers', 'mime', 'user'):
         return replay_own(ctx, obj)
     for m in _blocks():
@@ -2215,6 +2229,18 @@ def xml_decorations(ctx, W, J, t2, s, ci, only_clutter=False):
             ctx.hit('xml-deco:%s:%s' % (tag.split(':')[0], r.kind if r.kind != 'fault' else ('client' if is_client(r.code) else 'server')))
             J.check(s, r, 'base', rp, leaf=k['fam'] + ':' + tag.split(':')[0], data=data)
             t2.add(funnel_query(W, s, 'base', data=data), r, dict(rp, proto=proto, validator=s['validator'], transport='base'))
+        if only_clutter or (not ctx.thorough and (ki + ci + seed) % 3):
+            continue
+        # references to entities of the internal subset (never resolved: they stay in the tree as nodes of their own)
+        base = W.xml_request(proto, kid, ['top', 'attr', 'data'][(ki + seed) % 3], k['valid'])
+        for tag, data in ([] if base is None else entity_variants(proto, base)):
+            rp = {'kind': 'bytes', 'mutation': 'xml-' + tag, 'kid': kid, 'request_hex': data.hex(), 'request_len': len(data), 'opts': s.get('opts') or {}}
+            r = run_base(W, s, data)
+            n += 1
+            ctx.case({'xml-deco': [proto, s['validator'], kid, tag], 'd': hashlib.sha1(data).hexdigest()[:10]})
+            ctx.hit('xml-deco:%s:%s' % (tag, r.kind if r.kind != 'fault' else ('client' if is_client(r.code) else 'server')))
+            J.check(s, r, 'base', rp, leaf='node-kind:' + tag.split(':')[1], data=data)
+            t2.add(funnel_query(W, s, 'base', data=data), r, dict(rp, proto=proto, validator=s['validator'], transport='base'))
     return n
 
 
@@ -2259,7 +2285,7 @@ def part_http_flat(ctx, W, J, t2):
 
 
 # ====================================================================================== round 4: SOAP multi-references
-H_SHAPES = ['resolves', 'missing', 'empty', 'cycle', 'selfCycle', 'root', 'dupId', 'deep']
+H_SHAPES = ['resolves', 'missing', 'empty', 'cycle', 'selfCycle', 'root', 'dupId', 'deep', 'dangling']
 
 
 def href_keys():
@@ -2275,6 +2301,8 @@ def href_request(key):
         return t(call('<t:s href="#a"/>'), '<x id="a">hi</x>')
     if shape == 'missing':
         return t(call('<t:s href="#nope"/>'))
+    if shape == 'dangling':         # other ids are there, this one is not
+        return t(call('<t:s href="#zz"/>'), '<x id="a">hi</x><y id="zzz">no</y>')
     if shape == 'empty':
         return t(call('<t:s href=""/>'))
     if shape == 'cycle':
@@ -2430,6 +2458,15 @@ def part_environ(ctx, W, J, t2, facts):
 
 
 def report_table_findings(ctx, W, f):
+    for key, d in zip(fault_doc_keys(), f['faultDocTable']):
+        if d[0] == 'proceed':
+            continue
+        det = f['faultDocDetail'].get(key, {})
+        ctx.hit('fact-bad:fault-document')
+        ctx.finding('c10:escape:%s:%s:%s:%s' % ('wsgi' if key[1] else 'base', family(key[0]), d[1], det.get('frame')),
+                    'a fault whose text holds %s characters cannot be written by the output protocol %s: %s escapes %s (innermost spyne frame %s)' % (
+                        key[2], key[0], d[1], 'the WSGI callable' if key[1] else 'get_out_string', det.get('frame')),
+                    {'kind': 'faultdoc', 'key': [key[0], key[1], key[2]], 'proto': key[0], 'validator': None})
     for key, d in zip(href_keys(), f['hrefTable']):
         if d[0] in ('called', 'clientFault'):
             continue
@@ -2547,3 +2584,127 @@ def part_configs(ctx, W, J, t2):
                            {'kind': 'user', 'proto': proto, 'validator': None, 'want': want})
     ctx.cov['config_requests'] = n
     return n
+
+
+# ====================================================================================== round 5: the fault document and what it quotes
+F_CHARS = ['plain', 'control', 'nul', 'surrogate', 'nonBmp', 'nonchar']
+FAULT_TEXTS = {'plain': 'bad value', 'control': 'bad \x01\x0b\x1f value', 'nul': 'bad \x00 value', 'surrogate': 'bad \ud800 \udfff value',
+               'nonBmp': 'bad \U0001F600 value', 'nonchar': 'bad ￾￿ value'}
+OUT_PROTOS = ['xml', 'soap11', 'soap12', 'json', 'yaml', 'msgpack', 'msgpackrpc', 'http']
+
+
+def fault_doc_keys():
+    return [(p, w, c) for p in OUT_PROTOS for w in (False, True) for c in F_CHARS]
+
+
+def _fault_doc_row(W, key):
+    """raise a Client fault with this text at the deserialisation stage of a valid request (once, on the protocol instance) and see
+    whether the fault document gets written"""
+    from spyne.error import ValidationError
+    proto, wsgi, chars = key
+    s = W.server(proto, None)
+    p = s['app'].in_protocol
+
+    def raiser(*a, **k):
+        del p.deserialize
+        raise ValidationError(FAULT_TEXTS[chars], '%r: ' + FAULT_TEXTS[chars].replace('%', '%%'))
+    p.deserialize = raiser
+    try:
+        if wsgi or proto == 'http':
+            env = base_environ(proto, b'', path='/echo', qs='s=hi&n=5', method='GET') if proto == 'http' else base_environ(proto, W.echo_request(proto))
+            r = run_wsgi(W, s, env)
+        else:
+            r = run_base(W, s, W.echo_request(proto))
+    finally:
+        if 'deserialize' in vars(p):
+            del p.deserialize
+    if r.kind == 'escape':
+        return ('escape', r.exc), {'exc': r.exc, 'frame': r.frame}
+    return ('proceed',), {}
+
+
+def measure_fault_doc_table(W):
+    rows, detail = [], {}
+    for key in fault_doc_keys():
+        d, det = _fault_doc_row(W, key)
+        rows.append(d)
+        if det:
+            detail[key] = det
+    return rows, detail
+
+
+def part_cross_out(ctx, W, J, t2):
+    """request data that XML cannot carry (control characters, NUL, lone surrogates, noncharacters) in every leaf kind, sent with the input
+    protocols that can carry it, answered by the XML-family output protocols (and MessagePack, which cannot pack lone surrogates): the
+    fault document must still be produced"""
+    N = nasty_literals()
+    n = 0
+    ins = ['http', 'json', 'yaml', 'msgpack']
+    outs = ['xml', 'soap11', 'soap12', 'msgpack']
+    seed = ctx.seed
+
+    def uncarriable(lit):
+        return isinstance(lit, str) and any(ord(c) < 32 and c not in '\t\n\r' or 0xd800 <= ord(c) < 0xe000 or ord(c) in (0xfffe, 0xffff) for c in lit)
+    extra = ['\x01x', 'P\x01', '\x00', 'a\x0bb', '\ud800', '1\x1f', '￾', '\x7f\x80\x9f', '%s%r%d', '%01x', '%']
+    for ii, inp in enumerate(ins):
+        for oi, out in enumerate(outs):
+            if inp == out:
+                continue
+            for validator in (None, 'soft'):
+                s = W.server(inp, validator, out=out)
+                for ki, (kid, k) in enumerate(W.K.items()):
+                    if (k['only'] is not None and inp not in k['only']) or validator in k['skip']:
+                        continue
+                    lits = [l for l in N[k['fam']] + GENERIC if uncarriable(l)] + extra
+                    for li, lit in enumerate(lits):
+                        if not ctx.thorough and (li + ki + ii + oi + seed) % 3:
+                            continue
+                        pos = POSITIONS[(li + ki + seed) % 4]
+                        data = W.http_query(kid, pos, lit) if inp == 'http' else W.dict_request(inp, kid, pos, lit)
+                        if data is None:
+                            continue
+                        rp = {'kind': 'leaf', 'kid': kid, 'pos': pos, 'lit': lit, 'opts': {'out': out}}
+                        if inp != 'http':
+                            r = run_base(W, s, data)
+                            n += 1
+                            ctx.case({'cross': [inp, out, validator, kid, pos], 'lit': hashlib.sha1(repr(lit).encode()).hexdigest()[:12]})
+                            ctx.hit('cross:%s>%s:%s' % (inp, out, r.kind if r.kind != 'fault' else ('client' if is_client(r.code) else 'server')))
+                            J.check(s, r, 'base', rp, leaf=k['fam'] + ':out-' + family(out), data=data)
+                        env = wsgi_env(inp, data, kid)
+                        r = run_wsgi(W, s, env)
+                        n += 1
+                        ctx.case({'cross-wsgi': [inp, out, validator, kid, pos], 'lit': hashlib.sha1(repr(lit).encode()).hexdigest()[:12]})
+                        env['wsgi.input'] = Input(env['c10.raw'])
+                        J.check(s, r, 'wsgi', rp, leaf=k['fam'] + ':out-' + family(out), env=env)
+    ctx.cov['cross_out_requests'] = n
+    return n
+
+
+# ====================================================================================== round 5: nodes that are not elements
+def entity_variants(proto, data):
+    """the request with an internal subset that declares an entity, and a reference to it at one child position after the other: in front of
+    the members, between them, inside the nested object, the array, a leaf; for SOAP also in front of / behind the method element, in the
+    Envelope, in a Header"""
+    text = data.decode('utf-8')
+    if text.startswith('<?xml'):
+        text = text[text.index('?>') + 2:].lstrip()
+    doctype = '<!DOCTYPE c10 [<!ENTITY e "v"><!ENTITY big "%s">]>' % ('x' * 50)
+    out = []
+    import re as _re
+    spots = [('method', _re.compile(r'(<(?:\w+:)?f_\w+[^>]*>)')), ('o', _re.compile(r'(<(?:\w+:)?o>)')), ('arr', _re.compile(r'(<(?:\w+:)?arr>)')),
+             ('leaf', _re.compile(r'(<(?:\w+:)?a>)')), ('after-o', _re.compile(r'(</(?:\w+:)?o>)')), ('oa', _re.compile(r'(<(?:\w+:)?oa[^>]*>)')),
+             ('od', _re.compile(r'(<(?:\w+:)?od[^>]*>)'))]
+    if proto != 'xml':
+        spots += [('body', _re.compile(r'(<(?:\w+:)?Body>)')), ('after-method', _re.compile(r'(</(?:\w+:)?f_\w+>)')), ('envelope', _re.compile(r'(<(?:\w+:)?Envelope[^>]*>)'))]
+    for tag, rx in spots:
+        for ent in ('&e;', '&big;&e;'):
+            m = rx.search(text)
+            if m is None:
+                continue
+            out.append(('entity:%s' % tag, (doctype + text[:m.end()] + ent + text[m.end():]).encode('utf-8')))
+    if proto != 'xml':
+        m = _re.search(r'(<(?:\w+:)?Body>)', text)
+        out.append(('entity:header', (doctype + text[:m.start()] + '<senv:Header>&e;<x>1</x>&e;</senv:Header>' + text[m.start():]).encode('utf-8')))
+        out.append(('entity:body-only', (doctype + text[:m.end()] + '&e;' + text[text.index('</senv:Body>'):]).encode('utf-8')))
+    out.append(('entity:undeclared', (doctype + text.replace('<o>', '<o>&nope;', 1) if '<o>' in text else doctype + text).encode('utf-8')))
+    return out
